@@ -8,7 +8,8 @@
    ([regs_wf]) and the CFI oracle only returns register values that fit (they went through
    C::Register::try_from in CfiStackWalker). *)
 From Coq Require Import Lia ZArith List.
-From RM Require Import C05.Model C05.Proofs C05.Driver C05.ProofsModules.
+From RM Require Import C05.Model C05.Proofs C05.Driver C05.ProofsModules C05.ProofsCfi.
+From RM Require C06.Model.
 Import ListNotations.
 Open Scope Z_scope.
 
@@ -149,6 +150,32 @@ Theorem c05_module_covers :
     exists b s y, nth_error mods (Z.to_nat i) = Some (b, s, y) /\ b <= f_instr f < b + s.
 Proof. intros mods f i H E. exact (module_at_covers mods (f_instr f) i H E). Qed.
 Print Assumptions c05_module_covers.
+
+(* arm64 ptr_auth_strip (mask = next power of two of max(2^47 - 1, highest module end), minus one):
+   it never changes an address below the highest module end (nor below 2^47 - 1), never produces a larger or
+   negative value, and is idempotent.  [max_module_addr] is the end of the highest-ADDRESSED module (the
+   driver takes it from C08's table, as by_addr().next_back() does). *)
+Theorem c05_ptr_auth_strip_sound :
+  forall max_module_addr x,
+    (0 <= x < Z.max (2 ^ 47 - 1) max_module_addr -> ptr_auth_strip max_module_addr x = x) /\
+    (0 <= x -> 0 <= ptr_auth_strip max_module_addr x <= x) /\
+    (0 <= x -> ptr_auth_strip max_module_addr (ptr_auth_strip max_module_addr x) = ptr_auth_strip max_module_addr x).
+Proof. intros mma x. exact (conj (strip_below_max mma x) (conj (strip_bounds mma x) (strip_idempotent mma x))). Qed.
+Print Assumptions c05_ptr_auth_strip_sound.
+
+(* The contract assumed of the CFI oracle, proved for the real thing as C06 models it: walk_with_stack_cfi over
+   the real CfiStackWalker (any rule text, any deltas) keeps every register of the caller context within
+   [0, B) for every bound B >= 2^(8 * register width), whenever the callee's registers and the stack words read
+   are non-negative and the caller context starts within the bound. *)
+Theorem c05_cfi_walker_in_range :
+  forall (a6 : C06.Model.arch) B p E r addr s s',
+    2 ^ (8 * C06.Model.a_width a6) <= B ->
+    ((forall n v, C06.Model.e_callee E n = Some v -> 0 <= v) /\ (forall ad v, C06.Model.e_mem E ad = Some v -> 0 <= v)) ->
+    (forall n, 0 <= C06.Model.r_ctx s n < B) ->
+    C06.Model.walk_frame_cfi (C06.Model.real_ops a6) p E r addr s = Ret (Some s') ->
+    forall n, 0 <= C06.Model.r_ctx s' n < B.
+Proof. exact real_walk_in_range. Qed.
+Print Assumptions c05_cfi_walker_in_range.
 
 (* ---- the refutations that led to the repairs in /repo (kept checkable: [code_before_fixes]) *)
 Definition w_cfi_never_reads (callee : frame) (_ : option frame) (_ : list Z) : option (regs * list Z) :=
